@@ -364,6 +364,12 @@ func checkErrorsIn(c *Checker, R string, pkgNames ...string) {
 					continue
 				}
 			}
+			// the same predicate written out where it is used: the registry address parser called for its verdict
+			// only — the value is discarded and the error is nothing but compared with nil
+			if isRegistryAddrParser(o) && verdictOnly(ci, ev) {
+				c.check(p.verdictPolarityOK(fn, ev), R, name, construct, pos, "enumerated idiom: the registry address parser used as the 'looks like a registry source' predicate (value discarded, error only compared with nil; the registry branch lies on the nil side)", "the registry address parser is used as a predicate with the verdict turned round: the registry branch is taken exactly for what the parser refuses")
+				continue
+			}
 			u := p.errorUses(fn, ev)
 			if !(u.Returned || u.PassedOn) {
 				exc = p.errorIdiom(fn, ci, ev, u.Compared)
@@ -2550,4 +2556,77 @@ func ruleWalkErrParam(id string) func(*Checker) {
 			c.check(okT && first, id, p.FuncName(fn), "walk error looked at first", p.Pos(fn.Pos()), "`if err != nil { return … }` on the callback's own parameter, in the entry block", "the walk callback does not look at the error filepath.Walk hands it before going on (the test is gone, or the parameter is overwritten first): an unreadable directory is packed as if empty, or the nil FileInfo is dereferenced")
 		}
 	}
+}
+
+// verdictOnly: of the call's results only the error is used, and only in comparisons with nil.
+func verdictOnly(ci ssa.CallInstruction, ev ssa.Value) bool {
+	v := ci.Value()
+	if v == nil || v.Referrers() == nil || ev.Referrers() == nil {
+		return false
+	}
+	for _, r := range *v.Referrers() {
+		switch x := r.(type) {
+		case *ssa.DebugRef:
+		case *ssa.Extract:
+			if ssa.Value(x) == ev {
+				continue
+			}
+			if x.Referrers() != nil {
+				for _, rr := range *x.Referrers() {
+					if _, dbg := rr.(*ssa.DebugRef); !dbg {
+						return false
+					}
+				}
+			}
+		default:
+			return false
+		}
+	}
+	n := 0
+	for _, r := range *ev.Referrers() {
+		if _, dbg := r.(*ssa.DebugRef); dbg {
+			continue
+		}
+		bo, ok := r.(*ssa.BinOp)
+		if !ok || !(isNilConst(bo.X) || isNilConst(bo.Y)) {
+			return false
+		}
+		n++
+	}
+	return n > 0
+}
+
+// verdictPolarityOK: where the comparison is returned it is `== nil`; where it is branched on, the module's
+// registry parsers are called only on the nil side.
+func (p *Prog) verdictPolarityOK(fn *ssa.Function, ev ssa.Value) bool {
+	for _, r := range *ev.Referrers() {
+		bo, ok := r.(*ssa.BinOp)
+		if !ok || bo.Referrers() == nil {
+			continue
+		}
+		for _, rr := range *bo.Referrers() {
+			switch x := rr.(type) {
+			case *ssa.Return:
+				if bo.Op != token.EQL {
+					return false
+				}
+			case *ssa.If:
+				nilSide, errSide := x.Block().Succs[0], x.Block().Succs[1]
+				if bo.Op == token.NEQ {
+					nilSide, errSide = errSide, nilSide
+				}
+				fromNil, fromErr := reachFromBlock(nilSide), reachFromBlock(errSide)
+				for _, ci := range callsIn(fn) {
+					g := ci.Common().StaticCallee()
+					if g == nil || !p.InModule(g) || !strings.Contains(g.Name(), "Registry") {
+						continue
+					}
+					if fromErr[ci.Block()] && !fromNil[ci.Block()] {
+						return false
+					}
+				}
+			}
+		}
+	}
+	return true
 }
